@@ -28,6 +28,25 @@ impl StateMachine<'_> {
                 && self.line.starts_with("+Subproject commit ")
     }
 
+    /// A `-Subproject commit` line which is not followed by a `+Subproject commit` line (a deleted
+    /// submodule): show the commit on its own.
+    pub fn flush_submodule_short_minus_commit(&mut self) -> std::io::Result<()> {
+        if let State::SubmoduleShort(minus_commit) = &self.state {
+            if !self.line.starts_with("+Subproject commit ") {
+                self.painter.emit()?;
+                writeln!(
+                    self.painter.writer,
+                    "{}..",
+                    self.config
+                        .minus_style
+                        .paint(minus_commit.chars().take(12).collect::<String>()),
+                )?;
+                self.state = State::HunkZero(crate::delta::DiffType::Unified, None);
+            }
+        }
+        Ok(())
+    }
+
     pub fn handle_submodule_short_line(&mut self) -> std::io::Result<bool> {
         if !self.test_submodule_short_line() || self.config.color_only {
             return Ok(false);
@@ -47,6 +66,8 @@ impl StateMachine<'_> {
                         .plus_style
                         .paint(commit.chars().take(12).collect::<String>()),
                 )?;
+                // The pair is complete.
+                self.state = State::HunkZero(crate::delta::DiffType::Unified, None);
             }
         } else {
             // Not a commit hash: an ordinary hunk line.
